@@ -32,10 +32,13 @@ KINDS = {
     'f': ('Float64', '2', 2.0, 1.5, True),
     't': ('Mode', 'fast', ('tag', 'rt', 'Mode', 'fast'), ('tag', 'rt', 'Mode', 'slow'), True),
     'x': ('other.Xmode', 'on', ('tag', 'other', 'Xmode', 'on'), ('tag', 'other', 'Xmode', 'off'), True),
+    'y': ('Amode', 'slow', ('tag', 'rt', 'Mode', 'slow'), ('tag', 'rt', 'Mode', 'fast'), True),              # local alias of a local union
+    'z': ('Axmode', 'on', ('tag', 'other', 'Xmode', 'on'), ('tag', 'other', 'Xmode', 'off'), True),          # local alias of a foreign union
+    'w': ('other.Oxmode', 'off', ('tag', 'other', 'Xmode', 'off'), ('tag', 'other', 'Xmode', 'on'), True),   # foreign alias of a foreign union
     'a': ('Aint', None, None, 5, False),
     'l': ('List(Int32)', None, None, [1, 2], False),
 }
-QUICK_KINDS = ['r', 'n', 'd', 'e', 't', 'x', 'a']
+QUICK_KINDS = ['r', 'n', 'd', 'e', 't', 'x', 'z', 'w', 'a']
 ALL_KINDS = list(KINDS)
 
 
@@ -63,6 +66,7 @@ def struct_shapes(tier):
 def build_specs(tier):
     shapes = struct_shapes(tier)
     lines = ['namespace rt', '', 'import other', '', 'alias Aint = Int32(min_value=0)', '', 'union Mode', '    fast', '    slow', '',
+             'alias Amode = Mode', '', 'alias Axmode = other.Xmode', '',
              'struct Res', '    ok Boolean', '', 'alias Anull = String?', '', 'struct Qarg', '    q Anull', '    r Int32', '',
              'route rq(Qarg, Void, Void)', '', 'union Uarg', '    ua', '    ub String', '']
     routes = []      # (ns, route name, version, method suffix kind, shape index or 'union'/'void', result kind, deprecated, style)
@@ -124,7 +128,7 @@ def build_specs(tier):
                         lines.append('        style = "%s"' % style)
                         lines.append('')
                         extra.append(('rt', name, ver, argk, res, dep, style))
-    other = ['namespace other', '', 'union Xmode', '    on', '    off', '', 'struct Oarg', '    o Int32', '    m Xmode = on', '']
+    other = ['namespace other', '', 'union Xmode', '    on', '    off', '', 'alias Oxmode = Xmode', '', 'struct Oarg', '    o Int32', '    m Xmode = on', '']
     # namespace with routes but no types of its own: arguments imported, and all-Void routes
     noty = ['namespace noty', '', 'import rt', 'import other', '',
             'route imp(rt.A0, rt.Res, Void)', '    attrs', '        style = "rpc"', '',
